@@ -391,8 +391,9 @@ class Daemon(object):
             shutil.rmtree(self.dir, ignore_errors=True)
 
 
-def run_batch(build, conf_text, data, leaks=True, env=None, timeout=30.0, hooks=False, args=("-n",)):
-    """Feed raw bytes, close stdin, return (stdout lines, Result).  No sync lines are added."""
+def run_batch(build, conf_text, data, leaks=True, env=None, timeout=30.0, hooks=False, args=("-n",), pause_at=None, pause_s=0.0):
+    """Feed raw bytes, close stdin, return (stdout lines, Result).  No sync lines are added.
+    pause_at / pause_s: stop writing at that byte offset for that many seconds (stdin stays open) so that real timers can run."""
     d = Daemon(build, conf_text, leaks=leaks, env=env, hooks=hooks, watchdog=timeout, args=args)
     try:
         # writer must not block forever if the daemon dies
@@ -402,9 +403,26 @@ def run_batch(build, conf_text, data, leaks=True, env=None, timeout=30.0, hooks=
         os.set_blocking(fd_in, False)
         deadline = time.time() + timeout
         died = False
+        paused = pause_at is None
+        if not paused:
+            deadline += pause_s
         while pos < len(data):
             if time.time() > deadline:
                 break
+            if not paused and pos >= pause_at:
+                paused = True
+                t_end = time.time() + pause_s
+                while time.time() < t_end and not died:
+                    r, _, _ = select.select([d.ofd], [], [], max(0.0, min(0.2, t_end - time.time())))
+                    if r:
+                        c = os.read(d.ofd, 65536)
+                        if not c:
+                            died = True
+                            break
+                        out_chunks.append(c)
+                if died:
+                    break
+                continue
             r, w, _ = select.select([d.ofd], [fd_in], [], 1.0)
             if r:
                 c = os.read(d.ofd, 65536)
@@ -414,7 +432,8 @@ def run_batch(build, conf_text, data, leaks=True, env=None, timeout=30.0, hooks=
                 out_chunks.append(c)
             if w:
                 try:
-                    n = os.write(fd_in, data[pos:pos + 65536])
+                    lim = pos + 65536 if paused else min(pos + 65536, pause_at)
+                    n = os.write(fd_in, data[pos:lim])
                     pos += n
                 except BlockingIOError:
                     pass
